@@ -62,6 +62,8 @@ def finding(fid):
             ae._config = old
         return (not res) and len(written) > 0, {"archive": "tests/resources/archives/test_archive.7z", "max_memory_size": 1}, \
             f"{len(res)} results (all members above the limit) but {len(written)} member files were decompressed and written to disk"
+    if fid == "F30-pdf-mcid-order-list-scan":
+        return amp_pdf_mcid()
     return False, {}, "unknown finding"
 
 
@@ -487,7 +489,94 @@ def amp_ppt_consumers():
     return worst
 
 
-AMPLIFIERS = (("ppt_extractor.py::*/amp-bounded#no-rescan", amp_ppt_consumers), ("rtf_extractor.py::_RtfParser._strip_rtf_full_with_pages/amp-bounded#carve", amp_rtf), ("xls_extractor.py::_extract_images_from_workbook/amp-bounded#carve", amp_xls), ("_extract_png_images_from_bytes/amp-bounded#carve", amp_png), ("_extract_images_from_word_document/amp-bounded#carve", amp_dib),
+def _mcid_pdf(n):
+    """One-page PDF whose (deflated) content stream opens and closes n marked-content sequences with pairwise distinct MCIDs."""
+    import zlib
+    body = b"".join(b"/P <</MCID %d>> BDC EMC\n" % k for k in range(n))
+    comp = zlib.compress(body, 9)
+    objs = [b"<< /Type /Catalog /Pages 2 0 R >>", b"<< /Type /Pages /Kids [3 0 R] /Count 1 >>",
+            b"<< /Type /Page /Parent 2 0 R /MediaBox [0 0 612 792] /Resources << /XObject << >> >> /Contents 4 0 R >>",
+            b"<< /Length %d /Filter /FlateDecode >>\nstream\n" % len(comp) + comp + b"\nendstream"]
+    out, offs = bytearray(b"%PDF-1.4\n"), []
+    for i, o in enumerate(objs, 1):
+        offs.append(len(out))
+        out += b"%d 0 obj\n" % i + o + b"\nendobj\n"
+    x = len(out)
+    out += b"xref\n0 %d\n" % (len(objs) + 1) + b"0000000000 65535 f \n" + b"".join(b"%010d 00000 n \n" % o for o in offs)
+    out += b"trailer\n<< /Size %d /Root 1 0 R >>\nstartxref\n%d\n%%%%EOF\n" % (len(objs) + 1, x)
+    return bytes(out)
+
+
+def amp_pdf_mcid():
+    """Marked-content bookkeeping of the PDF reader on n sequences with distinct MCIDs.  Deterministic measure: the operator list is
+    handed in through a stand-in for pypdf's ContentStream whose MCIDs are ints that count their `==` comparisons (a list scan per
+    operator compares against everything collected so far); fallback when the reader is not built that way: run time of read_pdf on
+    real one-page files at two sizes."""
+    from sharepoint2text.parsing.extractors.pdf import pdf_extractor as PX
+
+    class CInt(int):
+        count = 0
+
+        def __eq__(self, other):
+            CInt.count += 1
+            return int.__eq__(self, other)
+        __hash__ = int.__hash__
+
+    def run(n):
+        ops_ = []
+        for k in range(n):
+            ops_.append((["/P", {"/MCID": CInt(k)}], b"BDC"))
+            ops_.append(([], b"EMC"))
+
+        class Stream:
+            def __init__(self, *a, **k):
+                self.operations = ops_
+
+        class Page:
+            pdf = None
+
+            def get_contents(self):
+                return object()
+        real = PX.ContentStream
+        PX.ContentStream = Stream
+        try:
+            CInt.count = 0
+            out = PX._extract_page_mcid_data(Page())
+        finally:
+            PX.ContentStream = real
+        if len(out[1]) != n:
+            raise ValueError("stand-in stream not consumed")
+        return CInt.count
+    try:
+        c1, c2 = run(500), run(2000)
+        inputs = {"builder": "content stream of n marked-content sequences `/P <</MCID k>> BDC EMC` with distinct k (n = 500 and 2000; 24 bytes each before deflate)",
+                  "measure": "number of == comparisons on MCID values in _extract_page_mcid_data"}
+        obs = f"{c1} comparisons for 1000 operators, {c2} for 4000 operators ({c2 // 4000} per operator)"
+        if c2 > 50 * 4000 and c2 >= 8 * max(c1, 1):
+            blob = _mcid_pdf(6000)
+            import time
+            t0 = time.perf_counter()
+            try:
+                list(PX.read_pdf(io.BytesIO(blob), "a.pdf"))
+            except Exception:  # noqa
+                pass
+            return True, inputs, obs + f"; read_pdf on a {len(blob)}-byte file with 6000 sequences: {time.perf_counter() - t0:.2f}s (quadratic: x4 sequences -> x16)"
+        return False, inputs, obs
+    except (AttributeError, TypeError, ValueError, IndexError, KeyError):
+        pass
+
+    def read(blob):
+        try:
+            list(PX.read_pdf(io.BytesIO(blob), "a.pdf"))
+        except Exception:  # noqa
+            pass
+    a, b, la, lb = _scaling(read, _mcid_pdf, 4000, 16000)
+    ratio = b / max(a, 1e-6)
+    return (ratio > 9 and b > 1.0), {"builder": "one-page PDF, n marked-content sequences with distinct MCIDs (4000 and 16000)"}, \
+        f"{la} bytes took {a:.3f}s, {lb} bytes took {b:.3f}s (x{ratio:.1f} for x4 sequences)"
+
+
+AMPLIFIERS = (("pdf_extractor.py::_extract_page_mcid_data/amp-bounded#list-membership", amp_pdf_mcid), ("ppt_extractor.py::*/amp-bounded#no-rescan", amp_ppt_consumers), ("rtf_extractor.py::_RtfParser._strip_rtf_full_with_pages/amp-bounded#carve", amp_rtf), ("xls_extractor.py::_extract_images_from_workbook/amp-bounded#carve", amp_xls), ("_extract_png_images_from_bytes/amp-bounded#carve", amp_png), ("_extract_images_from_word_document/amp-bounded#carve", amp_dib),
               ("ppt_extractor.py::_iter_records/amp-bounded#carve", amp_ppt), ("ppt_extractor.py::*/amp-bounded#nested-scans", amp_ppt),
               ("mbox_email_extractor.py::*/amp-bounded#no-self-suffix", amp_mbox), ("policy#xml-parsed", amp_xml_all))
 
